@@ -243,6 +243,25 @@ def oracle(ctx, kind, p):
                             ctx.fail('container!=generating-graphs', mech=f'{cname}:{which}',
                                      detail={'container': cname, 'line_terminator': nl, 'indent': indent,
                                              'text': text[:500], 'difference': which, 'model': mname})
+                # one codec, two decodes alive at the same time (each generator has its own position)
+                codec1 = penman.PENMANCodec(model=model)
+
+                def interleaved():
+                    a_, b_ = [], []
+                    it1, it2 = codec1.iterdecode(text_lf), codec1.iterdecode(R.split_lines(text_lf))
+                    first = next(it1, None)
+                    if first is not None:
+                        a_.append(first)
+                    for x_, y_ in zip(it1, it2):
+                        a_.append(x_)
+                        b_.append(y_)
+                    b_.extend(it2)
+                    return a_, b_
+                ok_i, res_i = ctx.call(interleaved, clause='interleaved decodes on one codec')
+                ctx.count('events')
+                if ok_i and (sig(res_i[0]) != want or sig(res_i[1]) != want):
+                    ctx.fail('container!=generating-graphs', mech='interleaved-on-one-codec',
+                             detail={'graphs': len(want), 'got': [len(res_i[0]), len(res_i[1])], 'text': text_lf[:300]})
                 # dump to a file name / handle vs dumps
                 outp = os.path.join(tmpdir, 'out.txt')
                 import pathlib
